@@ -4,19 +4,19 @@ namespace HailVerif.Gather
 
 /-! ### lists of task states -/
 
-theorem admit_conserve : ∀ (l : List TSt) (f : Nat), (admit f l).1 + nRunning (admit f l).2 = f + nRunning l := by
+theorem grant_conserve : ∀ (l : List TSt) (f : Nat), (grant f l).1 + nRunning (grant f l).2 = f + nRunning l := by
   intro l
   induction l with
-  | nil => intro f; cases f <;> simp [admit, nRunning]
+  | nil => intro f; cases f <;> simp [grant, nRunning]
   | cons x r ih =>
     intro f
     cases f with
-    | zero => simp [admit]
+    | zero => simp [grant]
     | succ f =>
       cases x with
-      | queued => have := ih f; simp [admit, nRunning]; omega
-      | running => have := ih (f + 1); simp [admit, nRunning]; omega
-      | done q => have := ih (f + 1); simp [admit, nRunning]; omega
+      | queued => have := ih f; simp [grant, nRunning]; omega
+      | running => have := ih (f + 1); simp [grant, nRunning]; omega
+      | done q => have := ih (f + 1); simp [grant, nRunning]; omega
 
 theorem set_running : ∀ (l : List TSt) (i : Nat) (q : Res), l[i]? = some .running →
     nRunning (l.set i (.done q)) + 1 = nRunning l := by
@@ -88,22 +88,22 @@ def budget (n : Nat) (s : State) : Nat :=
 theorem total_leave (s : State) : total (leave s) = total s + bonus s.entry := by
   unfold leave total
   cases h : s.entry
-  · have := admit_conserve s.st (s.free + 1); simp only [bonus]; omega
+  · have := grant_conserve s.st (s.free + 1); simp only [bonus]; omega
   · simp [bonus]
 
 theorem total_complete (s : State) (i : Nat) (o : Outcome) (h : s.st[i]? = some .running) :
     total (complete s i o) = total s := by
   have h1 := set_running s.st i (resOf o) h
-  have h2 := admit_conserve (s.st.set i (.done (resOf o))) (s.free + 1)
+  have h2 := grant_conserve (s.st.set i (.done (resOf o))) (s.free + 1)
   simp only [total, complete]; omega
 
 theorem total_cancelFirst (s : State) (j : Nat) : total (cancelFirst s j) = total s := by
   have h1 := cancelBelow_conserve s.st j
-  have h2 := admit_conserve (cancelBelow j s.st).2 (s.free + (cancelBelow j s.st).1)
+  have h2 := grant_conserve (cancelBelow j s.st).2 (s.free + (cancelBelow j s.st).1)
   simp only [total, cancelFirst]; omega
 
 theorem total_releaseOwn (s : State) : total (releaseOwn s) = total s + 1 := by
-  have h2 := admit_conserve s.st (s.free + 1)
+  have h2 := grant_conserve s.st (s.free + 1)
   simp only [total, releaseOwn]; omega
 
 theorem total_returnNow (s : State) (h : 1 ≤ s.free) : total (returnNow s) + 1 = total s + bonus s.entry := by
@@ -180,23 +180,23 @@ theorem cancelBelow_allDone : ∀ (l : List TSt) (j : Nat), l.length ≤ j → a
       have := ih j (by simp at hj; omega)
       cases x <;> simp_all [cancelBelow, allDone, isDone]
 
-theorem admit_allDone : ∀ (l : List TSt) (f : Nat), allDone l = true → (admit f l).2 = l := by
+theorem grant_allDone : ∀ (l : List TSt) (f : Nat), allDone l = true → (grant f l).2 = l := by
   intro l
   induction l with
-  | nil => intro f _; cases f <;> simp [admit]
+  | nil => intro f _; cases f <;> simp [grant]
   | cons x r ih =>
     intro f h
     simp [allDone] at h ih
     cases f with
-    | zero => simp [admit]
+    | zero => simp [grant]
     | succ f =>
       cases x <;> simp [isDone] at h
-      simp [admit]; exact ih (f + 1) h
+      simp [grant]; exact ih (f + 1) h
 
 theorem cancelFirst_allDone (s : State) (j : Nat) (h : s.st.length ≤ j) : allDone (cancelFirst s j).st = true := by
   have h1 := cancelBelow_allDone s.st j h
   simp only [cancelFirst]
-  rw [admit_allDone _ _ h1]; exact h1
+  rw [grant_allDone _ _ h1]; exact h1
 
 theorem budget_step {n : Nat} (hn : 1 ≤ n) {s s' : State} {op : Op} (hb : total s = budget n s)
     (h : step s op = some s') : total s' = budget n s' := by
@@ -279,12 +279,12 @@ theorem budget_step {n : Nat} (hn : 1 ≤ n) {s s' : State} {op : Op} (hb : tota
             simp at h; subst h
             have h3 := free_of_allDone (withExc (cancelFirst (complete s i (.raise e)) (complete s i (.raise e)).st.length) e) h2
             have := total_raiseNow (withExc (cancelFirst (complete s i (.raise e)) (complete s i (.raise e)).st.length) e) e 0 true (by
-              simp only [total] at h3 h1 hc hb ⊢
+              simp only [total, withExc_st, withExc_free] at h3 h1 hc hb ⊢
               cases hen : s.entry <;> simp [budget, hen, hfl, hh] at hb <;> omega)
-            simp only [total] at this h1 hc hb ⊢
+            simp only [total, withExc_st, withExc_free] at this h1 hc hb ⊢
             cases hen : s.entry <;> simp [budget, hen, hfl, hh, bonus] at hb this ⊢ <;> omega
           · simp at h; subst h
-            simp only [total] at h1 hc hb ⊢
+            simp only [total, withExc_st, withExc_free] at h1 hc hb ⊢
             cases hen : s.entry <;> cases hh : s.helper <;> simp_all [budget] <;> omega
     · simp at h
   | body o =>
@@ -296,7 +296,7 @@ theorem budget_step {n : Nat} (hn : 1 ≤ n) {s s' : State} {op : Op} (hb : tota
         simp at h; subst h
         have h1 := total_cancelFirst s s.st.length
         have := total_raiseNow_false (withExc (cancelFirst s s.st.length) e) e (nNotDone s.st)
-        simp only [total] at this h1 hb ⊢
+        simp only [total, withExc_st, withExc_free] at this h1 hb ⊢
         cases hen : s.entry <;> simp [budget, hen, hfl, hh, bonus] at hb this ⊢ <;> omega
       · next e0 hexc =>
         simp at h; subst h
@@ -317,28 +317,28 @@ theorem budget_step {n : Nat} (hn : 1 ≤ n) {s s' : State} {op : Op} (hb : tota
 
 /-! ### more list lemmas -/
 
-theorem admit_length : ∀ (l : List TSt) (f : Nat), (admit f l).2.length = l.length := by
+theorem grant_length : ∀ (l : List TSt) (f : Nat), (grant f l).2.length = l.length := by
   intro l
   induction l with
-  | nil => intro f; cases f <;> simp [admit]
+  | nil => intro f; cases f <;> simp [grant]
   | cons x r ih =>
     intro f
     cases f with
-    | zero => simp [admit]
-    | succ f => cases x <;> simp [admit, ih]
+    | zero => simp [grant]
+    | succ f => cases x <;> simp [grant, ih]
 
-theorem admit_done : ∀ (l : List TSt) (f i : Nat) (q : Res), (admit f l).2[i]? = some (.done q) ↔ l[i]? = some (.done q) := by
+theorem grant_done : ∀ (l : List TSt) (f i : Nat) (q : Res), (grant f l).2[i]? = some (.done q) ↔ l[i]? = some (.done q) := by
   intro l
   induction l with
-  | nil => intro f i q; cases f <;> simp [admit]
+  | nil => intro f i q; cases f <;> simp [grant]
   | cons x r ih =>
     intro f i q
     cases f with
-    | zero => simp [admit]
+    | zero => simp [grant]
     | succ f =>
       cases i with
-      | zero => cases x <;> simp [admit]
-      | succ i => cases x <;> simp [admit, ih]
+      | zero => cases x <;> simp [grant]
+      | succ i => cases x <;> simp [grant, ih]
 
 theorem cancelBelow_length : ∀ (l : List TSt) (j : Nat), (cancelBelow j l).2.length = l.length := by
   intro l
@@ -528,12 +528,12 @@ theorem step_cases {s s' : State} {op : Op} (h : step s op = some s') : StepCase
 theorem resOf_ne_cancelled (o : Outcome) : resOf o ≠ .cancelled := by cases o <;> simp [resOf]
 
 theorem complete_len (s : State) (i : Nat) (o : Outcome) : (complete s i o).st.length = s.st.length := by
-  simp [complete, admit_length]
+  simp [complete, grant_length]
 
 theorem complete_done (s : State) (i : Nat) (o : Outcome) (k : Nat) (q : Res) :
     (complete s i o).st[k]? = some (.done q) ↔
       (k = i ∧ i < s.st.length ∧ q = resOf o) ∨ (k ≠ i ∧ s.st[k]? = some (.done q)) := by
-  simp only [complete, admit_done, List.getElem?_set]
+  simp only [complete, grant_done, List.getElem?_set]
   by_cases hk : i = k
   · subst hk
     by_cases hl : i < s.st.length
@@ -543,28 +543,28 @@ theorem complete_done (s : State) (i : Nat) (o : Outcome) (k : Nat) (q : Res) :
     simp [hk, this]
 
 theorem leave_len (s : State) : (leave s).st.length = s.st.length := by
-  unfold leave; split <;> simp [admit_length]
+  unfold leave; split <;> simp [grant_length]
 
 theorem leave_done (s : State) (k : Nat) (q : Res) : (leave s).st[k]? = some (.done q) ↔ s.st[k]? = some (.done q) := by
-  unfold leave; split <;> simp [admit_done]
+  unfold leave; split <;> simp [grant_done]
 
 theorem leave_st_allDone (s : State) (h : allDone s.st = true) : (leave s).st = s.st := by
   unfold leave; split
-  · simp [admit_allDone _ _ h]
+  · simp [grant_allDone _ _ h]
   · rfl
 
 theorem cancelFirst_len (s : State) (j : Nat) : (cancelFirst s j).st.length = s.st.length := by
-  simp [cancelFirst, admit_length, cancelBelow_length]
+  simp [cancelFirst, grant_length, cancelBelow_length]
 
 theorem cancelFirst_done (s : State) (j k : Nat) (q : Res) (h : (cancelFirst s j).st[k]? = some (.done q)) :
     q = .cancelled ∨ s.st[k]? = some (.done q) := by
-  simp only [cancelFirst, admit_done] at h
+  simp only [cancelFirst, grant_done] at h
   exact cancelBelow_done _ _ _ _ h
 
-theorem releaseOwn_len (s : State) : (releaseOwn s).st.length = s.st.length := by simp [releaseOwn, admit_length]
+theorem releaseOwn_len (s : State) : (releaseOwn s).st.length = s.st.length := by simp [releaseOwn, grant_length]
 
 theorem releaseOwn_done (s : State) (k : Nat) (q : Res) :
-    (releaseOwn s).st[k]? = some (.done q) ↔ s.st[k]? = some (.done q) := by simp [releaseOwn, admit_done]
+    (releaseOwn s).st[k]? = some (.done q) ↔ s.st[k]? = some (.done q) := by simp [releaseOwn, grant_done]
 
 theorem returnNow_len (s : State) : (returnNow s).st.length = s.st.length := by simp [returnNow, leave_len]
 theorem returnNow_done (s : State) (k : Nat) (q : Res) :
@@ -650,8 +650,8 @@ theorem ctrl_step {s s' : State} {op : Op} (hC : Ctrl s) (h : StepCase s op s') 
     obtain ⟨hexc, hnr⟩ := ctrl_running hC hst
     obtain ⟨h1, h2, h3⟩ := ctrl_complete hC hst hout
     have hst' := returnNow_st (complete s i o) had
-    refine ⟨by rw [returnNow_len]; exact h1, ?_, ?_, ?_, ?_, ?_, ?_, ?_⟩
-    · intro k q hk; exact h2 k q ((returnNow_done _ k q).mp hk)
+    refine ⟨by rw [returnNow_len]; simpa using h1, ?_, ?_, ?_, ?_, ?_, ?_, ?_⟩
+    · intro k q hk; simpa using h2 k q ((returnNow_done _ k q).mp hk)
     · intro he hr k hk
       refine h3 (hC.nocancel hexc ?_) k ((returnNow_done _ k _).mp hk)
       intro e hh
@@ -666,8 +666,8 @@ theorem ctrl_step {s s' : State} {op : Op} (hC : Ctrl s) (h : StepCase s op s') 
   | raiseF i e hst hout hfl hh =>
     obtain ⟨hexc, hnr⟩ := ctrl_running hC hst
     obtain ⟨h1, h2, h3⟩ := ctrl_complete hC hst hout
-    refine ⟨by rw [raiseNow_len]; exact h1, ?_, ?_, ?_, ?_, ?_, ?_, ?_⟩
-    · intro k q hk; exact h2 k q ((raiseNow_done _ _ _ _ k q).mp hk)
+    refine ⟨by rw [raiseNow_len]; simpa using h1, ?_, ?_, ?_, ?_, ?_, ?_, ?_⟩
+    · intro k q hk; simpa using h2 k q ((raiseNow_done _ _ _ _ k q).mp hk)
     · intro _ hr; exact absurd (raiseNow_helper _ e _ false) (hr e)
     · intro sl hh'; simp at hh'
     · intro hh'; simp at hh'
@@ -677,11 +677,11 @@ theorem ctrl_step {s s' : State} {op : Op} (hC : Ctrl s) (h : StepCase s op s') 
   | raiseC i e hst hout hfl hh =>
     obtain ⟨hexc, hnr⟩ := ctrl_running hC hst
     obtain ⟨h1, h2, h3⟩ := ctrl_complete hC hst hout
-    refine ⟨by rw [raiseNow_len, cancelFirst_len]; exact h1, ?_, ?_, ?_, ?_, ?_, ?_, ?_⟩
+    refine ⟨by rw [raiseNow_len, cancelFirst_len]; simpa using h1, ?_, ?_, ?_, ?_, ?_, ?_, ?_⟩
     · intro k q hk
       rcases cancelFirst_done _ _ k q ((raiseNow_done _ _ _ _ k q).mp hk) with hq | hq
       · exact Or.inl hq
-      · exact h2 k q hq
+      · simpa using h2 k q hq
     · intro _ hr; exact absurd (raiseNow_helper _ e _ false) (hr e)
     · intro sl hh'; simp at hh'
     · intro hh'; simp at hh'
@@ -691,12 +691,15 @@ theorem ctrl_step {s s' : State} {op : Op} (hC : Ctrl s) (h : StepCase s op s') 
   | onlineFailExit i e hst hout hfl hh =>
     obtain ⟨hexc, hnr⟩ := ctrl_running hC hst
     obtain ⟨h1, h2, h3⟩ := ctrl_complete hC hst hout
-    have had := cancelFirst_allDone (complete s i (.raise e)) (complete s i (.raise e)).st.length (Nat.le_refl _)
-    refine ⟨by rw [raiseNow_len]; simp only [cancelFirst_len]; exact h1, ?_, ?_, ?_, ?_, ?_, ?_, ?_⟩
+    have had : allDone (withExc (cancelFirst (complete s i (.raise e)) (complete s i (.raise e)).st.length) e).st = true :=
+      cancelFirst_allDone (complete s i (.raise e)) (complete s i (.raise e)).st.length (Nat.le_refl _)
+    refine ⟨by rw [raiseNow_len, withExc_st, cancelFirst_len]; simpa using h1, ?_, ?_, ?_, ?_, ?_, ?_, ?_⟩
     · intro k q hk
-      rcases cancelFirst_done _ _ k q ((raiseNow_done _ _ _ _ k q).mp hk) with hq | hq
+      have hk' := (raiseNow_done _ _ _ _ k q).mp hk
+      rw [withExc_st] at hk'
+      rcases cancelFirst_done (complete s i (.raise e)) _ k q hk' with hq | hq
       · exact Or.inl hq
-      · exact h2 k q hq
+      · simpa using h2 k q hq
     · intro _ hr; exact absurd (raiseNow_helper _ e _ true) (hr e)
     · intro sl hh'; simp at hh'
     · intro hh'; simp at hh'
@@ -708,12 +711,14 @@ theorem ctrl_step {s s' : State} {op : Op} (hC : Ctrl s) (h : StepCase s op s') 
   | onlineFail i e hst hout hfl hh =>
     obtain ⟨hexc, hnr⟩ := ctrl_running hC hst
     obtain ⟨h1, h2, h3⟩ := ctrl_complete hC hst hout
-    have had := cancelFirst_allDone (complete s i (.raise e)) (complete s i (.raise e)).st.length (Nat.le_refl _)
-    refine ⟨by simp only [cancelFirst_len]; exact h1, ?_, ?_, ?_, ?_, ?_, ?_, ?_⟩
+    have had : allDone (withExc (cancelFirst (complete s i (.raise e)) (complete s i (.raise e)).st.length) e).st = true :=
+      cancelFirst_allDone (complete s i (.raise e)) (complete s i (.raise e)).st.length (Nat.le_refl _)
+    refine ⟨by rw [withExc_st, cancelFirst_len]; simpa using h1, ?_, ?_, ?_, ?_, ?_, ?_, ?_⟩
     · intro k q hk
-      rcases cancelFirst_done _ _ k q hk with hq | hq
+      rw [withExc_st] at hk
+      rcases cancelFirst_done (complete s i (.raise e)) _ k q hk with hq | hq
       · exact Or.inl hq
-      · exact h2 k q hq
+      · simpa using h2 k q hq
     · intro he; simp at he
     · intro sl hh'; exact absurd hh' (hnr sl)
     · intro hh'; exact absurd hh' hh
@@ -723,12 +728,14 @@ theorem ctrl_step {s s' : State} {op : Op} (hC : Ctrl s) (h : StepCase s op s') 
       simp [hexc] at this
     · intro hfl' e' _; simp [hfl] at hfl'
   | bodyRaise e hfl hh hexc =>
-    have had := cancelFirst_allDone s s.st.length (Nat.le_refl _)
-    refine ⟨by rw [raiseNow_len]; simp only [cancelFirst_len]; exact hC.len, ?_, ?_, ?_, ?_, ?_, ?_, ?_⟩
+    have had : allDone (withExc (cancelFirst s s.st.length) e).st = true := cancelFirst_allDone s s.st.length (Nat.le_refl _)
+    refine ⟨by rw [raiseNow_len, withExc_st, cancelFirst_len]; simpa using hC.len, ?_, ?_, ?_, ?_, ?_, ?_, ?_⟩
     · intro k q hk
-      rcases cancelFirst_done _ _ k q ((raiseNow_done _ _ _ _ k q).mp hk) with hq | hq
+      have hk' := (raiseNow_done _ _ _ _ k q).mp hk
+      rw [withExc_st] at hk'
+      rcases cancelFirst_done s _ k q hk' with hq | hq
       · exact Or.inl hq
-      · exact hC.agree k q hq
+      · simpa using hC.agree k q hq
     · intro he; simp at he
     · intro sl hh'; simp at hh'
     · intro hh'; simp at hh'
@@ -739,8 +746,8 @@ theorem ctrl_step {s s' : State} {op : Op} (hC : Ctrl s) (h : StepCase s op s') 
     · intro hfl' e' _; simp [hfl] at hfl'
   | bodyLate o e0 hfl hh hexc =>
     have had := (hC.excOnline e0 hexc).2
-    refine ⟨by rw [raiseNow_len]; exact hC.len, ?_, ?_, ?_, ?_, ?_, ?_, ?_⟩
-    · intro k q hk; exact hC.agree k q ((raiseNow_done _ _ _ _ k q).mp hk)
+    refine ⟨by rw [raiseNow_len]; simpa using hC.len, ?_, ?_, ?_, ?_, ?_, ?_, ?_⟩
+    · intro k q hk; simpa using hC.agree k q ((raiseNow_done _ _ _ _ k q).mp hk)
     · intro he; simp [hexc] at he
     · intro sl hh'; simp at hh'
     · intro hh'; simp at hh'
@@ -751,8 +758,8 @@ theorem ctrl_step {s s' : State} {op : Op} (hC : Ctrl s) (h : StepCase s op s') 
     · intro hfl' e' _; simp [hfl] at hfl'
   | bodyRet v hfl hh hexc had =>
     have hst' := returnNow_st (releaseOwn s) had
-    refine ⟨by rw [returnNow_len, releaseOwn_len]; exact hC.len, ?_, ?_, ?_, ?_, ?_, ?_, ?_⟩
-    · intro k q hk; exact hC.agree k q ((releaseOwn_done s k q).mp ((returnNow_done _ k q).mp hk))
+    refine ⟨by rw [returnNow_len, releaseOwn_len]; simpa using hC.len, ?_, ?_, ?_, ?_, ?_, ?_, ?_⟩
+    · intro k q hk; simpa using hC.agree k q ((releaseOwn_done s k q).mp ((returnNow_done _ k q).mp hk))
     · intro he hr k hk
       refine hC.nocancel hexc ?_ k ((releaseOwn_done s k _).mp ((returnNow_done _ k _).mp hk))
       intro e hh'; simp [hh] at hh'
@@ -764,8 +771,8 @@ theorem ctrl_step {s s' : State} {op : Op} (hC : Ctrl s) (h : StepCase s op s') 
     · intro _ e' hh'; simp at hh'
     · intro hfl' e' _; simp [hfl] at hfl'
   | bodyWait v hfl hh hexc =>
-    refine ⟨by simp only [releaseOwn_len]; exact hC.len, ?_, ?_, ?_, ?_, ?_, ?_, ?_⟩
-    · intro k q hk; exact hC.agree k q ((releaseOwn_done s k q).mp hk)
+    refine ⟨by simpa [releaseOwn_len] using hC.len, ?_, ?_, ?_, ?_, ?_, ?_, ?_⟩
+    · intro k q hk; simpa using hC.agree k q ((releaseOwn_done s k q).mp hk)
     · intro he hr k hk
       refine hC.nocancel hexc ?_ k ((releaseOwn_done s k _).mp hk)
       intro e hh'; simp [hh] at hh'
@@ -774,6 +781,207 @@ theorem ctrl_step {s s' : State} {op : Op} (hC : Ctrl s) (h : StepCase s op s') 
     · intro e' he; simp [hexc] at he
     · intro _ e' hh'; simp at hh'
     · intro hfl' e' _; simp [hfl] at hfl'
+
+/-! ### the first exception -/
+
+/-- the exception the helper has seen so far -/
+def errSeen (s : State) : Option Nat :=
+  match s.flavour with
+  | .online => s.exc
+  | .returnExceptions => none
+  | _ => match s.helper with
+    | .raised e => some e
+    | _ => none
+
+theorem firstErr_snoc (outs : List Outcome) (op : Op) : ∀ (ops : List Op),
+    firstErr outs (ops ++ [op]) = match firstErr outs ops with
+      | some e => some e
+      | none => firstErr outs [op]
+  | [] => by simp [firstErr]
+  | x :: r => by
+    have ih := firstErr_snoc outs op r
+    cases x with
+    | finish i =>
+      simp only [List.cons_append, firstErr]
+      split
+      · rfl
+      · exact ih
+    | body o =>
+      cases o with
+      | ret v => simp only [List.cons_append, firstErr]; exact ih
+      | raise e => simp [firstErr]
+
+@[simp] theorem cancelFirst_pending (s : State) (j : Nat) : (cancelFirst s j).pendingAtReturn = s.pendingAtReturn := rfl
+@[simp] theorem releaseOwn_pending (s : State) : (releaseOwn s).pendingAtReturn = s.pendingAtReturn := rfl
+
+theorem seen_step {s s' : State} {op : Op} {ops : List Op} (hC : Ctrl s)
+    (hS : s.flavour ≠ .returnExceptions → errSeen s = firstErr s.outs ops) (h : StepCase s op s') :
+    s'.flavour ≠ .returnExceptions → errSeen s' = firstErr s'.outs (ops ++ [op]) := by
+  intro hne
+  rw [firstErr_snoc]
+  cases h with
+  | plain i o hst hout hside =>
+    obtain ⟨hexc, hnr⟩ := ctrl_running hC hst
+    have hS' := hS (by simpa using hne)
+    simp only [complete_outs, complete_flavour] at *
+    rcases hside with hfl | ⟨hfl, hside⟩ | ⟨hfl, v, rfl⟩
+    · exact absurd hfl hne
+    · have hes : errSeen (complete s i o) = errSeen s := by
+        rcases hfl with hfl | hfl <;> simp [errSeen, hfl]
+      rw [hes, ← hS']
+      cases o with
+      | ret v =>
+        have : firstErr s.outs [Op.finish i] = none := by simp [firstErr, hout]
+        rw [this]; cases errSeen s <;> rfl
+      | raise e =>
+        rcases hside with hna | ⟨v, hv⟩
+        · cases hh : s.helper with
+          | active => exact absurd hh hna
+          | exiting => have := (hC.exiting hh).1; rcases hfl with hfl | hfl <;> simp [hfl] at this
+          | returned sl => exact absurd hh (hnr sl)
+          | raised e0 => rcases hfl with hfl | hfl <;> simp [errSeen, hfl, hh]
+        · cases hv
+    · have hes : errSeen (complete s i (.ret v)) = errSeen s := by simp [errSeen, hfl]
+      have : firstErr s.outs [Op.finish i] = none := by simp [firstErr, hout]
+      rw [hes, ← hS', this]; cases errSeen s <;> rfl
+  | ret i o hst hout had hside =>
+    obtain ⟨hexc, hnr⟩ := ctrl_running hC hst
+    have hS' := hS (by simpa using hne)
+    simp only [returnNow_outs, returnNow_flavour, complete_outs, complete_flavour] at *
+    rcases hside with ⟨hno, hact, hfl | ⟨v, rfl⟩⟩ | ⟨hfl, hex, v, rfl⟩
+    · exact absurd hfl hne
+    · have h1 : errSeen (returnNow (complete s i (.ret v))) = none := by
+        cases hfl : s.flavour <;> simp [errSeen, hfl] at hno hne ⊢
+      have h2 : errSeen s = none := by
+        cases hfl : s.flavour <;> simp [errSeen, hfl, hact] at hno hne ⊢
+      have : firstErr s.outs [Op.finish i] = none := by simp [firstErr, hout]
+      rw [h1, ← hS', h2, this]
+    · have h1 : errSeen (returnNow (complete s i (.ret v))) = none := by simp [errSeen, hfl, hexc]
+      have h2 : errSeen s = none := by simp [errSeen, hfl, hexc]
+      have : firstErr s.outs [Op.finish i] = none := by simp [firstErr, hout]
+      rw [h1, ← hS', h2, this]
+  | raiseF i e hst hout hfl hh =>
+    have hS' := hS (by simp [hfl])
+    have h2 : errSeen s = none := by simp [errSeen, hfl, hh]
+    have : firstErr s.outs [Op.finish i] = some e := by simp [firstErr, hout]
+    simp only [raiseNow_outs, complete_outs]
+    rw [← hS', h2, this]; simp [errSeen, hfl]
+  | raiseC i e hst hout hfl hh =>
+    have hS' := hS (by simp [hfl])
+    have h2 : errSeen s = none := by simp [errSeen, hfl, hh]
+    have : firstErr s.outs [Op.finish i] = some e := by simp [firstErr, hout]
+    simp only [raiseNow_outs, cancelFirst_outs, complete_outs]
+    rw [← hS', h2, this]; simp [errSeen, hfl]
+  | onlineFailExit i e hst hout hfl hh =>
+    obtain ⟨hexc, hnr⟩ := ctrl_running hC hst
+    have hS' := hS (by simp [hfl])
+    have h2 : errSeen s = none := by simp [errSeen, hfl, hexc]
+    have : firstErr s.outs [Op.finish i] = some e := by simp [firstErr, hout]
+    simp only [raiseNow_outs, withExc_outs, cancelFirst_outs, complete_outs]
+    rw [← hS', h2, this]; simp [errSeen, hfl]
+  | onlineFail i e hst hout hfl hh =>
+    obtain ⟨hexc, hnr⟩ := ctrl_running hC hst
+    have hS' := hS (by simp [hfl])
+    have h2 : errSeen s = none := by simp [errSeen, hfl, hexc]
+    have : firstErr s.outs [Op.finish i] = some e := by simp [firstErr, hout]
+    simp only [withExc_outs, cancelFirst_outs, complete_outs]
+    rw [← hS', h2, this]; simp [errSeen, hfl]
+  | bodyRaise e hfl hh hexc =>
+    have hS' := hS (by simp [hfl])
+    have h2 : errSeen s = none := by simp [errSeen, hfl, hexc]
+    simp only [raiseNow_outs, withExc_outs, cancelFirst_outs]
+    rw [← hS', h2]; simp [errSeen, hfl, firstErr]
+  | bodyLate o e0 hfl hh hexc =>
+    have hS' := hS (by simp [hfl])
+    have h2 : errSeen s = some e0 := by simp [errSeen, hfl, hexc]
+    simp only [raiseNow_outs]
+    rw [← hS', h2]; simp [errSeen, hfl, hexc]
+  | bodyRet v hfl hh hexc had =>
+    have hS' := hS (by simp [hfl])
+    have h2 : errSeen s = none := by simp [errSeen, hfl, hexc]
+    simp only [returnNow_outs, releaseOwn_outs]
+    rw [← hS', h2]; simp [errSeen, hfl, hexc, firstErr]
+  | bodyWait v hfl hh hexc =>
+    have hS' := hS (by simp [hfl])
+    have h2 : errSeen s = none := by simp [errSeen, hfl, hexc]
+    simp only [releaseOwn_outs]
+    rw [← hS', h2]; simp [errSeen, hfl, hexc, firstErr]
+
+/-! ### tasks unfinished at the instant the helper finishes -/
+
+def Pend (s : State) (ops : List Op) : Prop :=
+  s.pendingAtReturn ≠ 0 → (∃ e, s.helper = .raised e) ∧
+    (s.flavour = .raiseFirst ∨ s.flavour = .raiseCancel ∨ (s.flavour = .online ∧ ∃ e, Op.body (.raise e) ∈ ops))
+
+theorem pend_mono {s : State} {ops : List Op} (op : Op) {s' : State} (hP : Pend s ops)
+    (h1 : s'.pendingAtReturn = s.pendingAtReturn) (h2 : s'.helper = s.helper) (h3 : s'.flavour = s.flavour) :
+    Pend s' (ops ++ [op]) := by
+  intro hne
+  rw [h1] at hne
+  obtain ⟨he, hf⟩ := hP hne
+  rw [h2, h3]
+  refine ⟨he, ?_⟩
+  rcases hf with hf | hf | ⟨hf, e, hm⟩
+  · exact Or.inl hf
+  · exact Or.inr (Or.inl hf)
+  · exact Or.inr (Or.inr ⟨hf, e, by simp [hm]⟩)
+
+theorem pend_step {s s' : State} {op : Op} {ops : List Op} (hP : Pend s ops) (h : StepCase s op s') :
+    Pend s' (ops ++ [op]) := by
+  cases h with
+  | plain i o hst hout hside => exact pend_mono _ hP rfl rfl rfl
+  | ret i o hst hout had hside => intro hne; simp at hne
+  | raiseF i e hst hout hfl hh => intro _; exact ⟨⟨e, by simp⟩, Or.inl (by simpa using hfl)⟩
+  | raiseC i e hst hout hfl hh => intro _; exact ⟨⟨e, by simp⟩, Or.inr (Or.inl (by simpa using hfl))⟩
+  | onlineFailExit i e hst hout hfl hh => intro hne; simp at hne
+  | onlineFail i e hst hout hfl hh => exact pend_mono _ hP rfl rfl rfl
+  | bodyRaise e hfl hh hexc =>
+    intro _; exact ⟨⟨e, by simp⟩, Or.inr (Or.inr ⟨by simpa using hfl, e, by simp⟩)⟩
+  | bodyLate o e0 hfl hh hexc => intro hne; simp at hne
+  | bodyRet v hfl hh hexc had => intro hne; simp at hne
+  | bodyWait v hfl hh hexc =>
+    intro hne
+    have : s.pendingAtReturn ≠ 0 := hne
+    obtain ⟨⟨e, he⟩, _⟩ := hP this
+    simp [hh] at he
+
+/-! ### cancel_on_error: what is cancelled -/
+
+/-- after the helper raised with `cancel_on_error=True` because task `i` failed, every task BEFORE `i` (and `i` itself) is
+finished -/
+theorem raiseC_done_upto (s : State) (i e : Nat) (hst : s.st[i]? = some .running) (k : Nat) (hk : k ≤ i) :
+    ∃ q, (raiseNow (cancelFirst (complete s i (.raise e)) i) e (nNotDone (complete s i (.raise e)).st) false).st[k]? =
+      some (TSt.done q) := by
+  have hi : i < s.st.length := by
+    apply Classical.byContradiction; intro hn
+    have : s.st[i]? = none := by simp; omega
+    simp [this] at hst
+  by_cases hki : k = i
+  · subst hki
+    have h1 : (complete s k (.raise e)).st[k]? = some (TSt.done (resOf (.raise e))) :=
+      (complete_done s k (.raise e) k _).mpr (Or.inl ⟨rfl, hi, rfl⟩)
+    -- `cancelBelow k` does not touch position `k`, `grant` does not touch finished tasks
+    have h2 : ∀ (l : List TSt) (j : Nat) (t : TSt), l[j]? = some t → (cancelBelow j l).2[j]? = some t := by
+      intro l
+      induction l with
+      | nil => intro j t h; simp at h
+      | cons x r ih =>
+        intro j t h
+        cases j with
+        | zero => simpa [cancelBelow] using h
+        | succ j =>
+          have := ih j t (by simpa using h)
+          cases x <;> simpa [cancelBelow] using this
+    refine ⟨resOf (.raise e), ?_⟩
+    rw [raiseNow_done]
+    simp only [cancelFirst, grant_done]
+    exact h2 _ _ _ h1
+  · have hlt : k < i := by omega
+    obtain ⟨q, hq⟩ := cancelBelow_below (complete s i (.raise e)).st i k hlt (by rw [complete_len]; omega)
+    refine ⟨q, ?_⟩
+    rw [raiseNow_done]
+    simp only [cancelFirst, grant_done]
+    exact hq
 
 /-! ### reachable states -/
 
@@ -789,13 +997,13 @@ theorem nRunning_queued : ∀ (l : List Outcome), nRunning (l.map fun _ => TSt.q
 theorem budget_init {n : Nat} (hn : 1 ≤ n) (fl : Flavour) (en : Entry) (outs : List Outcome) :
     total (start fl en n outs) = budget n (start fl en n outs) := by
   have hq := nRunning_queued outs
-  have h1 := admit_conserve (outs.map fun _ => TSt.queued) (valueAtCall n en)
-  have h2 := admit_conserve (outs.map fun _ => TSt.queued) (valueAtCall n en + 1)
+  have h1 := grant_conserve (outs.map fun _ => TSt.queued) (valueAtCall n en)
+  have h2 := grant_conserve (outs.map fun _ => TSt.queued) (valueAtCall n en + 1)
   cases fl <;> cases en <;> simp only [start, total, valueAtCall] at * <;>
     first
     | (simp only [budget]; omega)
     | (split
-       · simp [leave, admit, budget, nRunning]; try omega
+       · simp [leave, grant, budget, nRunning]; try omega
        · simp only [budget]; omega)
 
 theorem reach_budget {fl : Flavour} {en : Entry} {n : Nat} {outs : List Outcome} {s : State} {ops : List Op} (hn : 1 ≤ n)
@@ -803,5 +1011,111 @@ theorem reach_budget {fl : Flavour} {en : Entry} {n : Nat} {outs : List Outcome}
   induction h with
   | init => exact budget_init hn fl en outs
   | step _ hs ih => exact budget_step hn ih hs
+
+theorem queued_not_done (outs : List Outcome) (k : Nat) (q : Res) :
+    (outs.map fun _ => TSt.queued)[k]? ≠ some (TSt.done q) := by
+  simp only [List.getElem?_map]
+  cases outs[k]? <;> simp
+
+theorem start_consts (fl : Flavour) (en : Entry) (n : Nat) (outs : List Outcome) :
+    (start fl en n outs).flavour = fl ∧ (start fl en n outs).entry = en ∧ (start fl en n outs).outs = outs := by
+  cases fl <;> simp only [start] <;> (try split) <;> simp
+
+theorem ctrl_init (fl : Flavour) (en : Entry) (n : Nat) (outs : List Outcome) : Ctrl (start fl en n outs) := by
+  have hnd : ∀ (f k : Nat) (q : Res), (grant f (outs.map fun _ => TSt.queued)).2[k]? ≠ some (TSt.done q) := by
+    intro f k q h; exact queued_not_done outs k q ((grant_done _ _ _ _).mp h)
+  have hlen : ∀ f : Nat, (grant f (outs.map fun _ => TSt.queued)).2.length = outs.length := by
+    intro f; simp [grant_length]
+  have active : ∀ f : Nat, Ctrl ⟨fl, en, outs, (grant f (outs.map fun _ => TSt.queued)).2,
+      (grant f (outs.map fun _ => TSt.queued)).1, .active, none, 0⟩ := by
+    intro f
+    refine ⟨hlen f, ?_, ?_, ?_, ?_, ?_, ?_, ?_⟩
+    · intro k q h; exact absurd h (hnd f k q)
+    · intro _ _ k h; exact absurd h (hnd f k _)
+    · intro sl h; simp at h
+    · intro h; simp at h
+    · intro e h; simp at h
+    · intro _ e h; simp at h
+    · intro _ e h; simp at h
+  cases fl
+  case online => exact active _
+  all_goals
+    simp only [start]
+    split
+    · next hemp =>
+      have : outs = [] := by simpa using hemp
+      subst this
+      refine ⟨by simp [leave_len], ?_, ?_, ?_, ?_, ?_, ?_, ?_⟩
+      · intro k q h; rw [leave_done] at h; simp at h
+      · intro _ _ k h; rw [leave_done] at h; simp at h
+      · intro sl h
+        simp only [leave_helper, HSt.returned.injEq] at h; subst h
+        have hl : ∀ x : State, x.st = [] → (leave x).st = [] := by
+          intro x hx; rw [leave_st_allDone x (by simp [hx, allDone])]; exact hx
+        refine ⟨?_, ?_, by simp⟩
+        · rw [hl _ rfl]; rfl
+        · rw [hl _ rfl]; rfl
+      · intro h; simp at h
+      · intro e h; simp at h
+      · intro h; simp at h
+      · intro _ e h; simp at h
+    · exact active _
+
+theorem stepcase_consts {s s' : State} {op : Op} (h : StepCase s op s') :
+    s'.flavour = s.flavour ∧ s'.entry = s.entry ∧ s'.outs = s.outs := by
+  cases h <;> simp
+
+/-- everything proved about reachable states -/
+theorem reach_all {fl : Flavour} {en : Entry} {n : Nat} {outs : List Outcome} {s : State} {ops : List Op}
+    (h : Reach fl en n outs s ops) :
+    (s.flavour = fl ∧ s.entry = en ∧ s.outs = outs) ∧ Ctrl s ∧
+      (fl ≠ .returnExceptions → errSeen s = firstErr outs ops) ∧ Pend s ops := by
+  induction h with
+  | init =>
+    obtain ⟨h1, h2, h3⟩ := start_consts fl en n outs
+    refine ⟨⟨h1, h2, h3⟩, ctrl_init fl en n outs, ?_, ?_⟩
+    · intro hne
+      have hC := ctrl_init fl en n outs
+      cases hfl : fl with
+      | returnExceptions => exact absurd hfl hne
+      | online =>
+        subst hfl; simp [errSeen, start, firstErr]
+      | raiseFirst =>
+        subst hfl
+        simp only [errSeen, h1, firstErr]
+        cases hh : (start .raiseFirst en n outs).helper with
+        | raised e => simp only [start] at hh; split at hh <;> simp at hh
+        | _ => rfl
+      | raiseCancel =>
+        subst hfl
+        simp only [errSeen, h1, firstErr]
+        cases hh : (start .raiseCancel en n outs).helper with
+        | raised e => simp only [start] at hh; split at hh <;> simp at hh
+        | _ => rfl
+    · intro hne
+      exfalso; apply hne
+      cases fl <;> simp only [start] <;> first | rfl | (split <;> simp)
+  | @step s0 ops0 op0 s1 hr hs ih =>
+    obtain ⟨⟨h1, h2, h3⟩, hC, hS, hP⟩ := ih
+    have hc := step_cases hs
+    obtain ⟨k1, k2, k3⟩ := stepcase_consts hc
+    refine ⟨⟨k1.trans h1, k2.trans h2, k3.trans h3⟩, ctrl_step hC hc, ?_, pend_step hP hc⟩
+    intro hne
+    have := seen_step (ops := ops0) hC (by intro hx; rw [h3]; exact hS (by rw [← h1]; exact hx)) hc
+      (by rw [k1, h1]; exact hne)
+    rw [k3, h3] at this
+    exact this
+
+/-- `runFrom` from a reachable state stays reachable -/
+theorem runFrom_reach {fl : Flavour} {en : Entry} {n : Nat} {outs : List Outcome} : ∀ (ops : List Op) {s s' : State}
+    {pre : List Op}, Reach fl en n outs s pre → runFrom s ops = some s' → Reach fl en n outs s' (pre ++ ops)
+  | [], s, s', pre, hr, h => by simp [runFrom] at h; subst h; simpa using hr
+  | op :: ops, s, s', pre, hr, h => by
+    simp only [runFrom] at h
+    split at h
+    · simp at h
+    · next s1 h1 =>
+      have := runFrom_reach ops (Reach.step hr h1) h
+      simpa [List.append_assoc] using this
 
 end HailVerif.Gather
